@@ -39,6 +39,17 @@ pub struct Scn {
     pub mode: Mode,
     pub sched: Tape,
     pub fuel: u64,
+    /// process-restart stratum: compare the solo trace hash of worker seed index `index` across
+    /// `procs` fresh processes (instances/mode/sched are unused then)
+    #[serde(default)]
+    pub process_restart: Option<ProcessRestart>,
+}
+
+#[derive(Clone, Debug, Serialize, Deserialize)]
+pub struct ProcessRestart {
+    pub seed: u64,
+    pub index: u64,
+    pub procs: u32,
 }
 
 pub struct C12;
@@ -129,7 +140,7 @@ impl Check for C12 {
             6..=7 => Mode::PriorLifetimes,
             _ => Mode::Threads,
         };
-        Scn { instances, mode, sched: Tape::random(rng, 400), fuel: 4_000_000 }
+        Scn { instances, mode, sched: Tape::random(rng, 400), fuel: 4_000_000, process_restart: None }
     }
 
     fn shrink(&self, scn: &Scn) -> Vec<Scn> {
@@ -165,6 +176,31 @@ impl Check for C12 {
 
     fn execute(&self, scn: &Scn) -> RunReport {
         let mut rep = RunReport::default();
+        if let Some(pr) = &scn.process_restart {
+            // replay of a cross-process divergence: fresh processes, ASLR, shifted heaps
+            let exe = std::env::current_exe().unwrap_or_default();
+            let mut hashes: Vec<String> = Vec::new();
+            for p in 0..pr.procs.max(2) {
+                let o = std::process::Command::new(&exe)
+                    .args(["c12-worker", &pr.seed.to_string(), "1", &pr.index.to_string()])
+                    .env("TSIM_PREALLOC", format!("{}", p as u64 * 7_340_033))
+                    .output();
+                hashes.push(match o {
+                    Ok(o) if o.status.success() => String::from_utf8_lossy(&o.stdout).trim().to_string(),
+                    _ => format!("worker {} failed", p),
+                });
+            }
+            if hashes.iter().any(|h| *h != hashes[0]) {
+                rep.fail(Failure::new(
+                    "trace_hash_differs_across_processes",
+                    format!("{} vs {}", hashes[0], hashes.iter().find(|h| **h != hashes[0]).cloned().unwrap_or_default()),
+                    json!({"hashes": hashes, "seed": pr.seed, "index": pr.index}),
+                ));
+            }
+            rep.nontrivial = true;
+            rep.trace_hash = hash_str(&hashes.join("|"));
+            return rep;
+        }
         // 1. solo traces
         let solos: Vec<String> = scn
             .instances
@@ -194,6 +230,7 @@ impl Check for C12 {
                 let mut tape = scn.sched.clone();
                 let mut last = usize::MAX;
                 let mut guard_rounds = 0u64;
+                let mut throwaways: Vec<Host> = Vec::new();
                 while done.iter().any(|d| d.is_none()) {
                     guard_rounds += 1;
                     if guard_rounds > 20_000_000 {
@@ -226,6 +263,20 @@ impl Check for C12 {
                     {
                         h.interp.collect();
                         rep.bump("forced_collect_by_scheduler", 1);
+                    }
+                    if tape.chance(1, 25) {
+                        // an unrelated instance is born between two actions; it is dropped at once or
+                        // lives on for a while
+                        let extra = new_interp(0, 99);
+                        rep.bump("throwaway_instance_created_between_steps", 1);
+                        if tape.next(2) == 0 {
+                            drop(extra);
+                        } else {
+                            throwaways.push(extra);
+                            if throwaways.len() > 3 {
+                                throwaways.remove(0);
+                            }
+                        }
                     }
                     if finished {
                         let (Some(h), Some(r)) = (hosts[i].as_mut(), runs[i].as_mut()) else { continue };
@@ -356,13 +407,13 @@ impl Check for C12 {
 }
 
 /// Worker entry for the process-restart stratum: prints one line "idx hash" per scenario.
-pub fn worker(seed: u64, n: usize) {
+pub fn worker(seed: u64, n: usize, start: usize) {
     // shift the heap by a seed-independent, environment-chosen amount
     let shift: usize = std::env::var("TSIM_PREALLOC").ok().and_then(|s| s.parse().ok()).unwrap_or(0);
     let ballast: Vec<u8> = vec![1u8; shift];
     std::hint::black_box(&ballast);
     let sid = crate::rng::stream_id("C12/process");
-    for i in 0..n {
+    for i in start..start + n {
         let mut r = Rng::new(crate::rng::derive(seed, sid, i as u64));
         let inst = gen_instance(&mut r, "v");
         let o = run_solo(&spec_of(&inst, 4_000_000));
